@@ -11,6 +11,7 @@ import (
 	"github.com/tableauio/tableau/internal/protogen"
 	"github.com/tableauio/tableau/internal/protogen/parseroptions"
 	"github.com/tableauio/tableau/internal/strcase"
+	"github.com/tableauio/tableau/internal/x/xproto"
 	"github.com/tableauio/tableau/options"
 	"github.com/tableauio/tableau/proto/tableaupb"
 	"google.golang.org/protobuf/reflect/protoreflect"
@@ -34,4 +35,9 @@ func FieldSeps(bookOpts *tableaupb.WorkbookOptions, sheetOpts *tableaupb.Workshe
 
 func RecordedBookOptions(header *options.HeaderOption) *tableaupb.WorkbookOptions {
 	return protogen.VerifRecordedBookOptions(header)
+}
+
+// ParseFieldValue parses one cell text for a field (xproto.ParseFieldValue).
+func ParseFieldValue(fd protoreflect.FieldDescriptor, rawValue string, locationName string) (v protoreflect.Value, present bool, err error) {
+	return xproto.ParseFieldValue(fd, rawValue, locationName)
 }
